@@ -322,8 +322,11 @@ def block_addressing_rule(ctx, rule):
     defs = [(e, bb) for (proj, e, bb) in vd.get(SLOT, []) if proj == ""]
     key = "push_to_block2 block_offset"
     okd = False
+    # locals that hold the same value as the slot (the helper-local twin of a slot computed in an extracted helper and handed back through `Ok(..)?`)
+    slot_txt = show(sl.expand(("var", SLOT, "", "usize"), stop=("payload_id",)), 400)
+    SAME = set(nm_ for nm_ in vd if show(sl.expand(("var", nm_, "", "usize"), stop=("payload_id",)), 400) == slot_txt) | {SLOT}
     for e, bb in defs:
-        form, c0 = polarity.affine(e)
+        form, c0 = polarity.affine(sl.expand(e, stop=("payload_id",)))
         pos = [n for n, v in form.items() if v == 1]
         neg = [n for n, v in form.items() if v == -1]
         if c0 == 0 and len(form) == 2 and len(pos) == 1 and len(neg) == 1 and re.search(r"payload_id\.sbn", pos[0]) and re.search(r"self\.blocks_offset$", neg[0]):
@@ -345,7 +348,7 @@ def block_addressing_rule(ctx, rule):
         elif m in ("resize_with", "resize"):
             form, c0 = polarity.affine(s_.expr[2][1])
             key = "push_to_block2 blocks.%s" % m
-            if form == {SLOT: 1} and c0 == 1:
+            if len(form) == 1 and list(form.values()) == [1] and list(form)[0] in SAME and c0 == 1:
                 rule.ok(key, "to block_offset + 1", s_.loc)
             else:
                 rule.violation(key, "the block vector is grown to %s" % show(s_.expr[2][1], 60), s_.loc)
@@ -358,7 +361,7 @@ def block_addressing_rule(ctx, rule):
                 if any(a[0] in ("lt", "le") and t and re.search(r"2048|4096|MAX_PREALLOCATED", show(a[1]) + show(a[2])) for (a, t) in fl.facts_at(bb))]
     for bb, e in errs:
         fs = [(a, t) for (a, t) in fl.facts_at(bb) if a[0] in ("lt", "le") and t and re.search(r"2048|4096", show(a[1]))]
-        slotx = set([SLOT] + [show(strip_ref(sl.expand(e_)), 300) for e_, _b in defs])   # the slot local, or its definition written out
+        slotx = set(list(SAME) + [show(strip_ref(sl.expand(e_)), 300) for e_, _b in defs])   # the slot local (or a twin), or its definition written out
         if fs and all(show(strip_ref(a[2]), 300) in slotx for (a, t) in fs):
             rule.ok(key, "under %s" % "; ".join("%s %s %s" % (show(a[1]), "<" if a[0] == "lt" else "<=", show(a[2])) for a, t in fs), loc(f.sp))
         else:
